@@ -128,6 +128,13 @@ func (sw *StrWalk) strOf(v ssa.Value, depth int) (string, bool) {
 			case "strings.ToLower":
 				a, ok := arg(0)
 				return strings.ToLower(a), ok
+			case "strings.Repeat":
+				a, ok := arg(0)
+				n, ok2 := sw.val.EvalInt(x.Call.Args[1], nil)
+				if ok && ok2 && n >= 0 && n < 1<<16 {
+					return strings.Repeat(a, int(n)), true
+				}
+				return "", false
 			}
 		}
 	}
